@@ -128,3 +128,22 @@ Theorem C17_consist_reload_is_unitwise : forall c c1 : Consist (F:=R),
   Forall2 (fun l l1 => loco_decode (loco_encode l) = Ok l1) (cn_locos c) (cn_locos c1) /\
   cn_pdct c1 = cn_pdct c /\ cn_assert_limits c1 = cn_assert_limits c /\ cn_state c1 = cn_state c.
 Proof. exact consist_reload_is_unitwise. Qed.
+
+(* --- "the reloaded CONSIST behaves identically" (CInv = every unit's stored maps are absent or what the code would
+   rebuild): one ConsistSimulation step of the reloaded consist IS the step of the original; CInv holds after every
+   load and is kept by every accepted step; hence saving after any prefix of any trace, loading and continuing gives
+   the uninterrupted run (identical with at least one further step, equal up to the caches with none) *)
+Theorem C17_consist_cache_insensitive : forall (c : Consist (F:=R)) pwr dt,
+  CInv c -> consist_sim_solve_step (consist_normalize c) pwr dt = consist_sim_solve_step c pwr dt.
+Proof. exact consist_step_cache_insensitive. Qed.
+Theorem C17_consist_cache_invariant_after_load : forall c : Consist (F:=R), CInv (consist_normalize c).
+Proof. exact CInv_normalize. Qed.
+Theorem C17_consist_cache_invariant_kept : forall (c c' : Consist (F:=R)) pwr dt,
+  consist_sim_solve_step c pwr dt = Ok c' -> CInv c -> CInv c'.
+Proof. exact consist_step_keeps_CInv. Qed.
+Theorem C17_consist_resume_equiv_exact : forall (c : Consist (F:=R)) pre i post,
+  CInv c -> cresume c pre (i :: post) = run C10P.cstep c (pre ++ i :: post).
+Proof. exact consist_resume_equiv_exact. Qed.
+Theorem C17_consist_resume_equiv : forall (c : Consist (F:=R)) pre post,
+  CInv c -> res_map consist_normalize (cresume c pre post) = res_map consist_normalize (run C10P.cstep c (pre ++ post)).
+Proof. exact consist_resume_equiv. Qed.
